@@ -1,11 +1,18 @@
 -------------------------- MODULE Export_ImageStore --------------------------
 (* Behaviour export: every history of exactly MaxOps public operations that   *)
-(* TLC reaches (BFS: all of them; -simulate: the sampled ones) is collected   *)
+(* TLC reaches (BFS: all of them; -simulate: the followed ones) is collected  *)
 (* in a TLC register and written as ndjson (IOEnv.OUT) when TLC finishes.     *)
-(* Run with -workers 1.                                                        *)
+(* -simulate evaluates invariants on every successor it generates, not only   *)
+(* on the one it follows, so a history is collected in an extra "done" step   *)
+(* that has exactly one successor.  Run with -workers 1.                       *)
 EXTENDS MC_ImageStore, Json, IOUtils
 CONSTANT Trait
+VARIABLE done
 ASSUME TLCSet(1, <<>>)
-Collect == (nops = MaxOps) => TLCSet(1, Append(TLCGet(1), [trait |-> Trait, ops |-> hist]))
+ExInit == Init /\ done = FALSE
+ExNext == \/ (Next /\ done' = done)
+          \/ (nops = MaxOps /\ ~done /\ done' = TRUE /\ UNCHANGED mvars)
+ExSpec == ExInit /\ [][ExNext]_<<mvars, done>>
+Collect == done => TLCSet(1, Append(TLCGet(1), [trait |-> Trait, ops |-> hist]))
 Dump == ndJsonSerialize(IOEnv.OUT, TLCGet(1))
 =============================================================================
